@@ -154,8 +154,12 @@ class Model:
             except SyntaxError as err:
                 raise AnalysisError("module %s does not parse: %s" % (name, err))
             sources[name] = (path, src)
-        from . import renames
+        from . import flatten, renames
 
+        # methods inherited from private in-module base classes are analysed as methods of the subclass
+        self.flattened = []
+        for name in MODULES:
+            self.flattened += ["%s.%s" % (name, x) for x in flatten.apply(trees[name])]
         # anchors found under a new name are analysed under the name the rules know
         self.renamed = renames.apply(trees)
         for name in MODULES:
